@@ -669,6 +669,18 @@ inductive Op where
   | addGrid (spec : GridSpec) (left : Bool)
   /-- `res = grid.embed(sub, t2connection([host, subblock], …)); if res is not None: grid = res` -/
   | embed (spec : GridSpec) (host sub : Name) (p : ConPay)
+  /-- `grid.add_block(t2block(nm, vol, rocktype(name = rock), centre))`: always a *fresh* rocktype
+      object, even when the grid registers one under that name (e.g. the constructor default) -/
+  | addBlockFresh (nm rock : Name) (vol : Rat) (centre : Option (List Rat))
+  /-- `grid.add_block(b)` for the most recently created block object currently named `nm` that is
+      not in the grid (a block deleted earlier, or one of a discarded second grid); no such object: nothing -/
+  | readdBlock (nm : Name)
+  /-- the same for a rocktype object -/
+  | readdRocktype (nm : Name)
+  /-- the same for a connection object whose blocks are currently named `(n0, n1)` -/
+  | readdConnection (n0 n1 : Name)
+  /-- `grid.add_block(grid.block[nm])`: the same object a second time -/
+  | againBlock (nm : Name)
   deriving Repr, Inhabited
 
 /-- what a call leaves behind -/
@@ -740,6 +752,17 @@ def specOps (s : GridSpec) : List Op :=
   s.blocks.map (fun b => Op.addBlock b.1 b.2.1 b.2.2.1 b.2.2.2) ++
   s.cons.map (fun c => Op.addConnection (s.blocks.getD c.1 default).1 (s.blocks.getD c.2.1 default).1 c.2.2)
 
+/-- the most recently created object (largest id below `n`) that is not in `l` and satisfies `p` -/
+def findOutside (l : List Nat) (n : Nat) (p : Nat → Bool) : Option Nat :=
+  (List.range n).reverse.find? fun x => !(l.contains x) && p x
+
+def outsideBlock (w : World) (nm : Name) : Option Nat :=
+  findOutside w.blocklist w.blks.length fun b => w.bname b == nm
+def outsideRock (w : World) (nm : Name) : Option Nat :=
+  findOutside w.rocktypelist w.rocks.length fun r => w.rname r == nm
+def outsideCon (w : World) (k : CName) : Option Nat :=
+  findOutside w.connectionlist w.cons.length fun c => w.ckey c == k
+
 /-- builds the second grid with the public API from the empty grid, in the shared heap; the
     current grid is left alone.  Returns the world (heap grown, current grid as before) and the new grid. -/
 def buildSpec (w : World) (s : GridSpec) : World × Grid :=
@@ -747,6 +770,30 @@ def buildSpec (w : World) (s : GridSpec) : World × Grid :=
   (w'.withGrid w.grid, w'.grid)
 
 end World
+
+/-- the operations that hand an already existing object to `add_*` again -/
+def stepReuse (w : World) : Op → Out
+  | .addBlockFresh nm rock vol centre =>
+    let (rt, w1) := w.newRock { name := rock, tag := 0 }
+    let (b, w2) := w1.newBlk { name := nm, volume := vol, rock := rt, centre := centre, conn := [] }
+    .ofR (World.addBlock w2 b)
+  | .readdBlock nm =>
+    match World.outsideBlock w nm with
+    | none => { w := w }
+    | some b => .ofR (World.addBlock w b)
+  | .readdRocktype nm =>
+    match World.outsideRock w nm with
+    | none => { w := w }
+    | some r => .ofR (World.addRocktype w r)
+  | .readdConnection n0 n1 =>
+    match World.outsideCon w (n0, n1) with
+    | none => { w := w }
+    | some c => .ofR (World.addConnection w c)
+  | .againBlock nm =>
+    match dget w.block nm with
+    | none => { w := w }
+    | some b => .ofR (World.addBlock w b)
+  | _ => { w := w }
 
 open World in
 def step (w : World) : Op → Out
@@ -783,6 +830,11 @@ def step (w : World) : Op → Out
       match embed w4 other c with
       | .ok (w5, fl) => { w := w5, flag := fl }
       | .error (e, w5) => { w := w5.withGrid w4.grid, exc := some e })
+  | .addBlockFresh nm rock vol centre => stepReuse w (.addBlockFresh nm rock vol centre)
+  | .readdBlock nm => stepReuse w (.readdBlock nm)
+  | .readdRocktype nm => stepReuse w (.readdRocktype nm)
+  | .readdConnection n0 n1 => stepReuse w (.readdConnection n0 n1)
+  | .againBlock nm => stepReuse w (.againBlock nm)
 
 /-- the state after a whole history (exceptions are swallowed by the caller, as a script with
     `try/except` around each call would) -/
